@@ -23,7 +23,7 @@ TITLE = 'attribute rendering'
 LEVEL = 'exploration'
 SHARDS = {'quick': 16, 'thorough': 16}
 FLOOR = {'quick': 1500, 'thorough': 15000}
-REQUIRED_MONITORS = {'start-tags-compared': 6000}
+REQUIRED_MONITORS = {'start-tags-compared': 6000, 'i18n-attributes-twins-compared': 500}
 RULE = ('a case = (static attributes with quoting kinds, statement entries, value vector, boolean configuration); exhaustive '
         'layer: <=2 statics x <=2 entries over 3 names x all quoting kinds x all 9 value classes; random layer: up to 5 '
         'statics and 4 entries incl. up to 2 dictionary entries; non-trivial iff a name is targeted by >=1 dynamic source or is '
@@ -196,7 +196,10 @@ def matches(expected, attrs):
 def build_source(statics, entries, cfg):
     src = ('<?xml version="1.0"?>' if cfg == 'xml' else '') + '<p' + ''.join(ser_static(*s_) for s_ in statics)
     if entries:
-        src += ' tal:attributes="%s"' % '; '.join(('%s %s' % e) if e[0] is not None else e[1] for e in entries)
+        # a variable named lit<k> stands for the literal entry 'string:S<k>;;' - a value that ends in an escaped semicolon,
+        # directly followed by the separator (or the end of the list)
+        spell = lambda var: ('string:S%s;;' % var[3:]) if var.startswith('lit') else var
+        src += ' tal:attributes="%s"' % '; '.join(('%s %s' % (e[0], spell(e[1]))) if e[0] is not None else e[1] for e in entries)
     return src + '>x</p>'
 
 
@@ -229,6 +232,18 @@ def one_case(ctx, statics, entries, cfg, Bs, sample=False):
     BOOL = BOOLSETS[cfg] if cfg != 'html' else HTML_BOOLS
     targeted = {n.lower() for n, v in entries if n}
     overlap = tuple(sorted((n, k, n.lower() in targeted) for n, k in statics))
+    # metamorphic twin: the attributes set by named entries are also listed in i18n:attributes; with the library's
+    # own translation function (nothing to translate to) the start tag is the same - in particular an attribute
+    # whose value is None stays away
+    twin = None
+    named = [n for n, v in entries if n]
+    if named and not any(k in ('interp', 'sqinterp', 'unqinterp', 'dqent', 'sqent') for n, k in statics if n.lower() in targeted) \
+            and len({n.lower() for n in named}) == len(named) and hash(src) % 3 == 0:
+        try:
+            twin = PageTemplate(src.replace('>x</p>', ' i18n:attributes="%s">x</p>' % '; '.join(named), 1), **kw)
+        except Exception as e:
+            ctx.violation('i18n-attributes-twin-does-not-compile', 'template %r with i18n:attributes=%r: %s: %s' % (
+                src, named, type(e).__name__, str(e).split('\n')[0]), {'kind': 'compile', 'src': src, 'cfg': cfg})
     for B in Bs:
         exp = model(statics, entries, cfg, B)
         try:
@@ -248,6 +263,17 @@ def one_case(ctx, statics, entries, cfg, Bs, sample=False):
                           'template %r (booleans: %s) bindings %r\n  rendered %r\n  model    %r' % (src, cfg, B, o, exp),
                           {'kind': 'attrs', 'src': src, 'cfg': cfg, 'B': repr(B)})
             return
+        if twin is not None and not any(B.get(v) == 'DEFAULT-MARKER' for n, v in entries if n):
+            try:
+                o2 = twin(**real_bindings(B))
+            except Exception as e:
+                o2 = 'RAISED %s: %s' % (type(e).__name__, str(e).split('\n')[0][:100])
+            ctx.mon('i18n-attributes-twins-compared')
+            if o2 != o:
+                ctx.violation('listing-attributes-in-i18n-attributes-changes-the-start-tag',
+                              'template %r bindings %r rendered %r; with i18n:attributes=%r (default translation function) %r' % (
+                                  src, B, o, named, o2), {'kind': 'attrs', 'src': src, 'cfg': cfg, 'B': repr(B)})
+                return
 
 
 def classify(statics, entries, cfg, B, out, exp):
@@ -322,7 +348,7 @@ def layer_random(ctx, n):
                     continue
                 spelled = CASEVAR[nm] if other[0] == nm else nm
             used.add(nm.lower())
-            entries.append((spelled, 'v%d' % len(entries)))
+            entries.append((spelled, ('lit%d' if rng.random() < .15 else 'v%d') % len(entries)))
             if nm.lower() in static_l:
                 named_static.add(nm.lower())
         # exclusions (see RULE)
@@ -350,6 +376,8 @@ def layer_random(ctx, n):
                     v = value_of(rng.choice(VALS))
                     if v == 'DEFAULT-MARKER' and static_l.get(nme.lower()) in ('interp', 'sqinterp', 'unqinterp'):
                         v = 'str'
+                    if var.startswith('lit'):
+                        v = 'S%s;' % var[3:]
                     B[var] = v
             Bs.append(B)
         one_case(ctx, statics, entries, cfg, Bs, sample=(case < 2))
